@@ -7,8 +7,10 @@ import Acra.Gen.Src.Ptptime
 import Acra.Lemmas.SrcTieTime
 import Acra.Model.PES
 import Acra.Lemmas.SrcTie
+import Acra.Lemmas.SrcTieNorm
+set_option linter.unusedSimpArgs false
 namespace Acra.Props.C15
-open Acra Acra.Py Acra.Lemmas.SrcTie
+open Acra Acra.Py Acra.Lemmas.SrcTieNorm Acra.Lemmas.SrcTie
 
 /-! Source ties (C15): integer parts of the time conversions, regenerated from the current Python source by
     `harness/translate.py` on every run (see `Props/C07/SrcTie.lean`). -/
@@ -35,8 +37,10 @@ theorem src_pts_to_ts_int (v : Nat) :
 theorem src_ts_to_pts_int (pts : Nat) :
     Gen.Src.PES.ts_to_pts_v pts = (Model.PES.fieldOfPts pts : Int) := by
   unfold Gen.Src.PES.ts_to_pts_v Model.PES.fieldOfPts
-  simp only [shr_natCast, shl_natCast, band_natCast_lit, bor_lit_natCast, bor_natCast, toNat_lit]
+  simp only [shr_natCast, shl_natCast, shl_lit, band_natCast, band_natCast_lit, bor_lit_natCast, bor_natCast, toNat_lit]
   congr 1
+  -- a field selected in place (`(pts & (m << k)) << s`) is the field extracted and placed (`((pts >> k) & m) << (k + s)`)
+  try simp only [field_in_place_15, field_in_place_3, Nat.shiftRight_zero, Nat.reduceAdd]
   rw [and_low pts 32767 15 (by decide), and_low (pts >>> 15) 32767 15 (by decide),
     and_low (pts >>> 30) 7 3 (by decide)]
   simp only [Nat.shiftRight_eq_div_pow, Nat.shiftLeft_eq]
